@@ -98,11 +98,15 @@ type fakeStream struct {
 	ready   chan struct{}
 	handle  any
 	entered []int // messages for which MsgSend was entered
-	inSend  bool
-	release chan error
-	wdone   bool // MsgSend returned an error: write loop gone
-	returns int  // MsgSend calls that have returned
-	cap     int
+	// MsgSend entry / return log of this stream, in the order the calls entered / returned (appended under mu at
+	// the very beginning and the very end of MsgSend): two write loops on one stream show up as two entries
+	// without a return between them, whatever the scheduler does afterwards
+	events   []sendEvent
+	inFlight int // MsgSend calls entered and not yet returned (a correct pool never has more than one)
+	release  chan error
+	wdone    bool // MsgSend returned an error: write loop gone
+	returns  int  // MsgSend calls that have returned
+	cap      int
 
 	recvFirst   bool
 	recvCh      chan error
@@ -115,7 +119,13 @@ type fakeStream struct {
 	removed     bool
 
 	seenEntered int
+	seenEvents  int
 	seenClose   int
+}
+
+type sendEvent struct {
+	msg     int
+	entered bool // true: MsgSend entered, false: MsgSend returned
 }
 
 var errInjected = errors.New("injected")
@@ -131,7 +141,8 @@ func (f *fakeStream) MsgSend(msg drpc.Message, _ drpc.Encoding) error {
 	}
 	f.mu.Lock()
 	f.entered = append(f.entered, id)
-	f.inSend = true
+	f.events = append(f.events, sendEvent{id, true})
+	f.inFlight++
 	f.ctx.done.Store(0)
 	f.mu.Unlock()
 	var err error
@@ -141,7 +152,8 @@ func (f *fakeStream) MsgSend(msg drpc.Message, _ drpc.Encoding) error {
 		err = errDead
 	}
 	f.mu.Lock()
-	f.inSend = false
+	f.events = append(f.events, sendEvent{id, false})
+	f.inFlight--
 	f.returns++
 	if err != nil {
 		f.wdone = true
@@ -338,7 +350,7 @@ func (w *world) writersParked() bool {
 	w.mu.Unlock()
 	for _, f := range fs {
 		f.mu.Lock()
-		ok := f.inSend || f.wdone || f.closeCalls > 0 || f.ctx.done.Load() >= 2
+		ok := f.inFlight > 0 || f.wdone || f.closeCalls > 0 || f.ctx.done.Load() >= 2
 		f.mu.Unlock()
 		if !ok {
 			return false
@@ -445,7 +457,7 @@ func (w *world) quiescentOnce() (bool, string) {
 		if f.handle == nil {
 			f.handle = h
 		}
-		inSend, wdone, entered := f.inSend, f.wdone, len(f.entered)
+		inSend, wdone, entered := f.inFlight > 0, f.wdone, len(f.entered)
 		closeCalls, cgate, closeRel, closeTrig, removed := f.closeCalls, f.cgate, f.closeRel, f.closeTrig, f.removed
 		parked := f.ctx.done.Load() >= 2
 		f.mu.Unlock()
@@ -518,6 +530,7 @@ type obsT struct {
 	Err     int
 	Ids     []uint64
 	Takes   [][2]uint64
+	Events  [][3]uint64 // (stream, message, 1 = MsgSend entered / 0 = MsgSend returned), per stream in order
 	Closed  []uint64
 	Removed []struct {
 		Sid  uint64
@@ -585,11 +598,15 @@ func (o obsT) term() string {
 	for i, t := range o.Takes {
 		takes[i] = vlib.App("pP", vlib.N(t[0]), vlib.N(t[1]))
 	}
+	evs := make([]string, len(o.Events))
+	for i, e := range o.Events {
+		evs[i] = vlib.App("pE", vlib.N(e[0]), vlib.N(e[1]), vlib.Bool(e[2] == 1))
+	}
 	rem := make([]string, len(o.Removed))
 	for i, r := range o.Removed {
 		rem[i] = vlib.App("pK", vlib.N(r.Sid), nlist(r.Tags))
 	}
-	return vlib.App("mkObs", vlib.N(uint64(o.Err)), nlist(o.Ids), mlist("cP", "nP", takes), nlist(o.Closed),
+	return vlib.App("mkObs", vlib.N(uint64(o.Err)), nlist(o.Ids), mlist("cP", "nP", takes), mlist("cE", "nE", evs), nlist(o.Closed),
 		mlist("cK", "nK", rem), o.Snap, vlib.Bool(o.Timely))
 }
 
@@ -759,7 +776,7 @@ func (r *runner) exec(i int, o op) (obsT, bool) {
 	case "release":
 		if f := w.fakeBySid(o.Sid); f != nil {
 			f.mu.Lock()
-			in := f.inSend
+			in := f.inFlight > 0
 			ret0 := f.returns
 			if in && !o.Ok {
 				f.closeTrig = true
@@ -904,6 +921,14 @@ func (r *runner) exec(i int, o op) (obsT, bool) {
 			ob.Takes = append(ob.Takes, [2]uint64{uint64(f.sid), uint64(f.entered[k])})
 		}
 		f.seenEntered = len(f.entered)
+		for k := f.seenEvents; k < len(f.events); k++ {
+			e := [3]uint64{uint64(f.sid), uint64(f.events[k].msg), 0}
+			if f.events[k].entered {
+				e[2] = 1
+			}
+			ob.Events = append(ob.Events, e)
+		}
+		f.seenEvents = len(f.events)
 		for k := f.seenClose; k < f.closeCalls; k++ {
 			ob.Closed = append(ob.Closed, uint64(f.sid))
 		}
@@ -911,6 +936,7 @@ func (r *runner) exec(i int, o op) (obsT, bool) {
 		f.mu.Unlock()
 	}
 	sort.SliceStable(ob.Takes, func(a, b int) bool { return ob.Takes[a][0] < ob.Takes[b][0] })
+	sort.SliceStable(ob.Events, func(a, b int) bool { return ob.Events[a][0] < ob.Events[b][0] })
 	sortedU(ob.Closed)
 	sort.Slice(rems, func(a, b int) bool { return rems[a].sid < rems[b].sid })
 	for _, rm := range rems {
